@@ -9,6 +9,14 @@ set_option linter.constructorNameAsVariable false
 namespace ChemModel.Formula
 open ChemModel.Gen
 
+/-- decidable equality of model results (for the concrete `example`s), kept in this namespace -/
+instance instDecEqResult : DecidableEq (Except ErrKind Comp) := fun a b =>
+  match a, b with
+  | .ok x, .ok y => if h : x = y then isTrue (by rw [h]) else isFalse (by intro e; cases e; exact h rfl)
+  | .error x, .error y => if h : x = y then isTrue (by rw [h]) else isFalse (by intro e; cases e; exact h rfl)
+  | .ok _, .error _ => isFalse (by intro e; cases e)
+  | .error _, .ok _ => isFalse (by intro e; cases e)
+
 theorem splitAtChar_spec (c : Char) (s : List Char) (h : c ∈ s) :
     s = (splitAtChar c s).1 ++ c :: (splitAtChar c s).2 := by
   induction s with
